@@ -191,6 +191,8 @@ theorem mem_coords (a : Area) (t : Tile) :
 /-- the visible (clamped) rectangle -/
 def InVis (a : Area) (t : Tile) : Prop := a.x1 ≤ t.x ∧ t.x ≤ a.x2 ∧ a.y1 ≤ t.y ∧ t.y ≤ a.y2
 
+instance (a : Area) (t : Tile) : Decidable (InVis a t) := by unfold InVis; infer_instance
+
 theorem gridB_iff (a : Area) (hx : 0 < a.px) (hy : 0 < a.py) (t : Tile) (h : InVis a t) :
     gridB a t.x t.y = true ↔ ∃ i j : Nat, InBlock a i j t := by
   unfold InVis at h
